@@ -80,3 +80,28 @@ Proof. repeat split; reflexivity. Qed.
 Example computed_examples : ca_len (computed_new 0 [1;2;3]) = 0 /\ ca_len (computed_new 4 [1;2;3;4;5;6;7;8;9]) = 2 /\
   fst (computed_iter 10 (computed_new 4 [1;2;3;4;5;6;7;8;9]) 0) = [[1;2;3;4;5;6;7;8;9]; [5;6;7;8;9]].
 Proof. repeat split; reflexivity. Qed.
+
+(* ---- round 2 helpers (ModelH) ---- *)
+From FV Require Import C01.ModelH.
+(* 3 points: flag 0x37 (on-curve, x/y short positive) repeated twice more via REPEAT: [0x3F; 2] then 3 x bytes, 3 y bytes *)
+Example read_points_fast_example :
+  read_points_fast 3 [63; 2; 5; 6; 7; 1; 2; 3] [0;0;0] = Ok [5;1;1; 11;3;1; 18;6;1] /\
+  read_points_fast 3 [63] [0;0;0] = Err OutOfBounds /\
+  read_points_fast 300 [57; 255; 57; 255] (repeat 0 300) = Ok (flat_map (fun _ => [0;0;1]) (repeat 0 300)).
+Proof. repeat split; vm_compute; reflexivity. Qed.
+Example points_iter_example : exists it, points_iter (Some 2) [63; 2; 5; 6; 7; 1; 2; 3] = Ok it /\
+  piter_run 10 it = Ok ([5;1;1; 11;3;1; 18;6;1], true).
+Proof. eexists. split; vm_compute; reflexivity. Qed.
+(* packed point numbers: count 3, one run of 3 one-byte deltas 1,2,3 -> points 1,3,6; remainder 1 byte *)
+Example packed_points_example : ppn_split_off_front [3; 2; 1; 2; 3; 99] = Ok [99] /\
+  ppn_run 10 (ppn_iter [3; 2; 1; 2; 3; 99]) = Ok ([1; 3; 6], true).
+Proof. split; vm_compute; reflexivity. Qed.
+(* packed deltas: run of 2 bytes (-1, 5), run of 3 zeros, run of 1 word 0x0102 *)
+Example packed_deltas_example : packed_deltas_all [1; 255; 5; 130; 64; 1; 2] 20 = Ok (6, ([-1; 5; 0; 0; 0; 258], true)).
+Proof. vm_compute. reflexivity. Qed.
+(* cmap12: overlapping groups [10..12 -> 5], [11..13 -> 20]: the second group starts at 13 *)
+Example cmap12_example :
+  let groups := [[0;0;0;10; 0;0;0;12; 0;0;0;5]; [0;0;0;11; 0;0;0;13; 0;0;0;20]] in
+  cmap12_take 10 groups None (cmap12_iter_new groups None) = Ok ([10;5; 11;6; 12;7; 13;22], true) /\
+  cmap12_take 10 groups (Some (1114111, 7)) (cmap12_iter_new groups (Some (1114111, 7))) = Ok ([10;5; 11;6], true).
+Proof. cbv zeta. split; vm_compute; reflexivity. Qed.
